@@ -33,9 +33,9 @@
     C18: the filter definition reaches the run as a parsed tree, its encodings are outside run_cfg.) *)
 From Coq Require Import List ZArith NArith Bool Arith Lia Permutation Sorted.
 From TkModel Require Import Base Dec Acct Txn Accept Journal Balance Register Round Price Time Group.
-From TkModel Require Import ReportText T05_report PriceText Regex T06_run.
+From TkModel Require Import ReportText T05_report PriceText Regex T06_describe T06_run.
 From TkModel Require Filter Equity EquityText MetaText Audit Codec Tstamp Config Output.
-From TkSpec Require Import Balance_spec Register_spec Round_spec Price_spec ReportText_spec T05_spec T06_spec T08_spec.
+From TkSpec Require Import Balance_spec Register_spec Round_spec Price_spec ReportText_spec T05_spec T05_grp_spec T06_spec T08_spec.
 From TkSpec Require Accept_spec Filter_spec Audit_spec Equity_spec EquityText_spec Journal_spec Group_spec MetaText_spec.
 From TkProofs Require Import T06_proofs T08_proofs.
 Import ListNotations.
@@ -194,7 +194,7 @@ Theorem T08_filter_exact : forall H cfg j p st f pats,
     /\ rs_txns st = map txn_of (rs_sel st)
     /\ (Filter_spec.filter_wf f -> Forall Filter_spec.ftxn_wf (map ftxn_of js) ->
         Filter_spec.Selects (Filter_spec.sat (re_table pats) f) (map ftxn_of js) (map ftxn_of (rs_sel st)))
-    /\ exists items, rs_md st = Some (items ++ [MetaText.IFilter (MetaText.filter_lines (Codec.describe_def (to_cfilter pats f)))]).
+    /\ exists items, rs_md st = Some (items ++ [MetaText.IFilter (MetaText.filter_lines (describe_def_tz (rc_zone_off cfg) (to_cfilter pats f)))]).
 Proof. exact filter_exact. Qed.
 Print Assumptions T08_filter_exact.
 
@@ -204,7 +204,7 @@ Theorem T08_filter_in_output : forall H cfg j p out f pats,
   run_console H cfg j p = Ok out -> rc_targets cfg <> [] ->
   rc_filter cfg = Some (f, pats) ->
   exists items rest,
-    out = MetaText.meta_text (items ++ [MetaText.IFilter (MetaText.filter_lines (Codec.describe_def (to_cfilter pats f)))])
+    out = MetaText.meta_text (items ++ [MetaText.IFilter (MetaText.filter_lines (describe_def_tz (rc_zone_off cfg) (to_cfilter pats f)))])
           ++ [10%N] ++ rest.
 Proof. exact filter_in_output. Qed.
 Print Assumptions T08_filter_in_output.
@@ -336,14 +336,16 @@ Proof. exact faulty_run. Qed.
 Print Assumptions T08_faulty_run.
 
 (* ---------------------------------------------------------------- C16 *)
-(* two runs whose configurations differ in the report zone only: the same state; the balance body is byte-identical; the
+(* two runs whose configurations differ in the report zone only: if one succeeds so does the other (the preparation does
+   not read the zone and the report texts are total: T06_run_total), with the same state; the balance body is byte-identical; the
    register has the same entries, rows, amounts and running totals under other time-stamp labels; the balance-group
    periods follow the zone and their exact sums add up to the same totals *)
-Theorem T08_report_zone_display_only : forall H a b j p out out',
+Theorem T08_report_zone_display_only : forall H a b j p out,
   differ_only_in_zone a b ->
-  run_console H a j p = Ok out -> run_console H b j p = Ok out' ->
-  exists st,
-    run_prepare H a j p = Ok st /\ run_prepare H b j p = Ok st
+  run_console H a j p = Ok out ->
+  exists out' st,
+    run_console H b j p = Ok out'
+    /\ run_prepare H a j p = Ok st /\ run_prepare H b j p = Ok st
     (* balance: the text from the title on is byte-identical *)
     /\ (In MetaText.RBalance (rc_targets a) ->
         exists body, report_body a st MetaText.RBalance = Some body /\ report_body b st MetaText.RBalance = Some body
@@ -477,6 +479,20 @@ Theorem T08_balgrp_partition : forall H cfg j p out,
                                  (bal_txt_report (g_title g) sc (b_rows (g_rep g)) (b_deltas (g_rep g)))) gs).
 Proof. exact balgrp_partition. Qed.
 Print Assumptions T08_balgrp_partition.
+
+(* ... end to end in one statement (T05_balgrp_shown through T06_balgrp_figures): the balance-group text printed by a
+   run is the title lines and one block per period of the report zone — ascending, a block exactly for the periods with
+   a listed row — and every block is a balance text of exactly that period's transactions whose figures read back as the
+   rounded exact converted sums *)
+Theorem T08_balgrp_figures : forall H cfg j p out,
+  run_console H cfg j p = Ok out -> In MetaText.RBalGroup (rc_targets cfg) ->
+  exists st, run_prepare H cfg j p = Ok st
+    /\ (run_hyp cfg st = true ->
+        exists head body, framed (head ++ body) out
+          /\ balgrp_text_spec (rc_title_grp cfg) (rc_scale cfg) (rc_group_by cfg) (rtz cfg) (rs_lk st) (rc_commodity cfg)
+                              (rs_file st) (sel_of cfg MetaText.RBalGroup) (rs_txns st) body).
+Proof. exact balgrp_figures. Qed.
+Print Assumptions T08_balgrp_figures.
 
 (* ---------------------------------------------------------------- non-vacuity *)
 Example T08_example :
